@@ -180,8 +180,8 @@ func (b *atxHeadingParser) Close(node ast.Node, reader text.Reader, pc Context) 
 		id, ok := node.AttributeString("id")
 		if !ok {
 			generateAutoHeadingID(node.(*ast.Heading), reader, pc)
-		} else {
-			pc.IDs().Put(id.([]byte))
+		} else if b, ok := id.([]byte); ok {
+			pc.IDs().Put(b)
 		}
 	}
 }
